@@ -247,7 +247,8 @@ async fn sink_main<S: Sys>(env: &mut Env<S>, args: Vec<Field>) -> BResult {
     }
 }
 
-/// `pos [TAG]`: records the offset of fd 0 (`-1` if it is not seekable) in the trace.
+/// `pos [TAG]`: records the offset of fd 0 (`-1` if it is not seekable) and whether fd 0 is in
+/// non-blocking mode (`nb=0|1`) in the trace.
 fn pos_main<S: Sys>(env: &mut Env<S>, args: Vec<Field>) -> BResult {
     use yash_env::system::Seek as _;
     let off = match env.system.lseek(Fd::STDIN, std::io::SeekFrom::Current(0)) {
@@ -256,6 +257,22 @@ fn pos_main<S: Sys>(env: &mut Env<S>, args: Vec<Field>) -> BResult {
     };
     let mut a = vec!["pos".to_string(), off.to_string()];
     a.extend(values(&args));
+    // is fd 0 in non-blocking mode? (what a command reading that input would find)
+    {
+        use yash_env::system::Fcntl as _;
+        let nb = match env.system.get_and_set_nonblocking(Fd::STDIN, false) {
+            Ok(true) => {
+                let _ = env.system.get_and_set_nonblocking(Fd::STDIN, true);
+                "nb=1"
+            }
+            Ok(false) => "nb=0",
+            Err(_) => "nb=?",
+        };
+        if a.len() == 2 {
+            a.push(String::new());
+        }
+        a.push(nb.to_string());
+    }
     let entry = TraceEntry { pid: env.system.getpid().0, status: env.exit_status.0, args: a };
     TRACE.with(|t| t.borrow_mut().push(entry));
     BResult::new(env.exit_status)
